@@ -588,6 +588,12 @@ impl Database {
                     };
                     // Keep the version growing and the disk position of an already stored key
                     let new_value = match db.get(&key.to_string()) {
+                        // The version can no longer grow: refuse like a plain set does
+                        Some(old) if old.version == i32::MAX => {
+                            return Response::Error {
+                                msg: String::from(INVALID_VERSION_ERROR),
+                            }
+                        }
                         Some(old) => Value {
                             value: next.clone(),
                             version: old.version.saturating_add(1),
